@@ -267,6 +267,26 @@ func genCase(rnd *rand.Rand, cfg genCfg, id int) *Case {
 			stmts = append(stmts, g.initVars()...)
 		}
 		stmts = append(stmts, g.stmts(1, i)...)
+		if cfg.Huge && i == nn/2 {
+			// a shaft: one option leads through 9-13 nested bodies (ifs that are true, option groups of one) to a
+			// <<stop>> with statements remaining after it at every level
+			levels := 9 + rnd.Intn(5)
+			inner := c.addBody([]Stmt{g.lineStmt(), {K: "cmd", Elems: []*Expr{eStr("stop")}}, g.lineStmt()})
+			for k := 0; k < levels; k++ {
+				var wrap Stmt
+				if k%3 == 2 {
+					g.lineNo++
+					wrap = Stmt{K: "opts", Opts: []Option{{Text: []Part{{Lit: fmt.Sprintf("O%d deeper", g.lineNo)}}, Body: inner}}}
+				} else {
+					wrap = Stmt{K: "if", Clauses: []Clause{{Cond: eBool(true), Body: inner}}}
+				}
+				inner = c.addBody([]Stmt{wrap, g.lineStmt()})
+			}
+			g.lineNo += 2
+			stmts = append(stmts, Stmt{K: "opts", Opts: []Option{
+				{Text: []Part{{Lit: fmt.Sprintf("O%d down the shaft", g.lineNo-1)}}, Body: inner},
+				{Text: []Part{{Lit: fmt.Sprintf("O%d walk on", g.lineNo)}}}}}, g.lineStmt())
+		}
 		if cfg.Huge && stmts[len(stmts)-1].K != "jump" {
 			// the nodes form a ring: a walk goes on for hundreds of calls
 			stmts = append(stmts, Stmt{K: "jump", E: eStr(g.titles[(i+1)%nn])})
